@@ -436,6 +436,23 @@ func (x *fnCtx) applyContract(st *State, fr *Frame, in ssa.Instruction, con *Con
 			rnames = append(rnames, sig.Results().At(i).Name())
 		}
 	}
+	// result names the contract may use although the callee's results lost their names
+	if callee != nil {
+		pk, ky := funcKey(callee)
+		for old, sig := range x.eng.baseLocals[shortPkg(pk)+"."+ky] {
+			var k int
+			if strings.HasPrefix(sig, "result:") {
+				if _, err := fmt.Sscanf(sig, "result:%d:", &k); err == nil {
+					for len(rnames) <= k {
+						rnames = append(rnames, "")
+					}
+					if rnames[k] == "" {
+						rnames[k] = old
+					}
+				}
+			}
+		}
+	}
 	if res != nil {
 		if res.Tup != nil {
 			for i, r := range res.Tup {
